@@ -28,6 +28,33 @@ func (s *State) SetEntityAction(ea *vikjapb.EntityAction) {
 	entityActions[ea.Name] = ea
 }
 
+// SetEntityActionIfNotOlder sets the given entity action unless the one stored
+// for the same entity and name has a later timestamp. It reports whether the
+// action has been set. Comparing and storing are done under the same lock:
+// actions for the same entity and name can be set from several connections
+// at the same time, and the latest one has to win.
+func (s *State) SetEntityActionIfNotOlder(ea *vikjapb.EntityAction) bool {
+	s.entityActionMutex.Lock()
+	defer s.entityActionMutex.Unlock()
+
+	if s.entityActions == nil {
+		s.entityActions = make(map[uint32]map[string]*vikjapb.EntityAction)
+	}
+
+	entityActions, ok := s.entityActions[ea.EntityId]
+	if !ok {
+		entityActions = make(map[string]*vikjapb.EntityAction)
+		s.entityActions[ea.EntityId] = entityActions
+	}
+
+	if latest, ok := entityActions[ea.Name]; ok && ea.Timestamp.AsTime().Before(latest.Timestamp.AsTime()) {
+		return false
+	}
+
+	entityActions[ea.Name] = ea
+	return true
+}
+
 func (s *State) EntityAction(entityID uint32, actionName string) (*vikjapb.EntityAction, bool) {
 	s.entityActionMutex.RLock()
 	defer s.entityActionMutex.RUnlock()
